@@ -8,46 +8,282 @@ import EvalFilter.Model.Parser
 namespace EvalFilter.Parser
 open EvalFilter
 
-def K (s : PState) : Prop := s.cur.ty ≠ .ILLEGAL
-def C (all : List Token) (s : PState) : Prop := ∃ pre, all = pre ++ s.toks ∧ ∀ t ∈ pre, t.ty ≠ .ILLEGAL
+/-- a token the parser may step over: not ILLEGAL, not the end of input, not the type-less token
+    the lexer produces for a lone `&`, `|` or `~` -/
+def legal (t : TokType) : Prop := t ≠ .ILLEGAL ∧ t ≠ .EOF ∧ t ≠ .NONE
+def Kt (toks : List Token) : Prop := legal (toks.headD Token.eof).ty
+def Ct (all toks : List Token) : Prop := ∃ pre, all = pre ++ toks ∧ ∀ t ∈ pre, legal t.ty
+def K (s : PState) : Prop := Kt s.toks
+def C (all : List Token) (s : PState) : Prop := Ct all s.toks
 
-theorem C_next {all : List Token} {s : PState} (hc : C all s) (hk : K s) : C all s.next := by
+theorem K_iff {s : PState} : K s = Kt s.toks := rfl
+theorem C_iff {all : List Token} {s : PState} : C all s = Ct all s.toks := rfl
+theorem Kt_iff {toks : List Token} : Kt toks = legal (toks.headD Token.eof).ty := rfl
+theorem legal_iff {t : TokType} : legal t = (t ≠ .ILLEGAL ∧ t ≠ .EOF ∧ t ≠ .NONE) := rfl
+
+theorem Ct_tail {all toks : List Token} (hc : Ct all toks) (hk : Kt toks) : Ct all toks.tail := by
   obtain ⟨pre, h1, h2⟩ := hc
-  cases hs : s.toks with
-  | nil => exact ⟨pre, by simp [PState.next, hs, h1], h2⟩
+  cases toks with
+  | nil => exact ⟨pre, by simpa using h1, h2⟩
   | cons t rest =>
-    refine ⟨pre ++ [t], by simp [PState.next, hs, h1], ?_⟩
+    refine ⟨pre ++ [t], by simp [h1], ?_⟩
     intro u hu
     rcases List.mem_append.mp hu with h | h
     · exact h2 u h
     · simp at h; subst h
-      simpa [K, PState.cur, hs] using hk
+      simpa [Kt] using hk
+
+theorem cur_eq {s : PState} : s.cur = s.toks.headD Token.eof := rfl
+theorem peek_eq {s : PState} : s.peek = s.toks.tail.headD Token.eof := rfl
+theorem next_toks {s : PState} : s.next.toks = s.toks.tail := rfl
+theorem curIs_iff {s : PState} {t : TokType} : (s.curIs t = true) = ((s.toks.headD Token.eof).ty = t) := by
+  simp [PState.curIs, PState.cur]
+theorem peekIs_iff {s : PState} {t : TokType} : (s.peekIs t = true) = ((s.toks.tail.headD Token.eof).ty = t) := by
+  simp [PState.peekIs, PState.peek]
 
 theorem expectPeek_eq {s s' : PState} {t : TokType} (h : s.expectPeek t = some s') :
-    s' = s.next ∧ s'.cur.ty = t := by
+    s'.toks = s.toks.tail ∧ (s.toks.tail.headD Token.eof).ty = t := by
   unfold PState.expectPeek at h
   split at h
   · rename_i hp
     cases h
-    refine ⟨rfl, ?_⟩
-    simpa [PState.peekIs, PState.peek, PState.next, PState.cur] using hp
+    exact ⟨rfl, by simpa [peekIs_iff] using hp⟩
   · cases h
 
-theorem K_of_ty {s : PState} {t : TokType} (h : s.cur.ty = t) (ht : t ≠ .ILLEGAL) : K s := by
-  unfold K; rw [h]; exact ht
-
-theorem K_of_curIs {s : PState} {t : TokType} (h : s.curIs t = true) (ht : t ≠ .ILLEGAL) : K s := by
-  unfold PState.curIs at h
-  have : s.cur.ty = t := by simpa using h
-  exact K_of_ty this ht
-
-theorem peekIs_next {s : PState} {t : TokType} (h : s.peekIs t = true) : s.next.cur.ty = t := by
-  simpa [PState.peekIs, PState.peek, PState.next, PState.cur] using h
+theorem C_next {all : List Token} {s : PState} (hc : C all s) (hk : K s) : C all s.next := Ct_tail hc hk
 
 /-- after a successful `expectPeek t` (t legal) both invariants hold again -/
-theorem CK_expectPeek {all : List Token} {s s' : PState} {t : TokType} (hc : C all s) (hk : K s)
-    (h : s.expectPeek t = some s') (ht : t ≠ .ILLEGAL) : C all s' ∧ K s' := by
-  obtain ⟨rfl, hty⟩ := expectPeek_eq h
-  exact ⟨C_next hc hk, K_of_ty hty ht⟩
+theorem CK_expectPeek {all : List Token} {s s' : PState} {t : TokType} (h : s.expectPeek t = some s')
+    (ht : legal t) (hc : C all s) (hk : K s) : C all s' ∧ K s' := by
+  obtain ⟨h1, h2⟩ := expectPeek_eq h
+  refine ⟨?_, ?_⟩
+  · show Ct all s'.toks
+    rw [h1]; exact Ct_tail hc hk
+  · show Kt s'.toks
+    rw [h1, Kt_iff, h2]; exact ht
+
+theorem infixFn_legal {t : TokType} {fn : InfixFn} (h : infixFn t = some fn) : legal t := by
+  refine ⟨?_, ?_, ?_⟩ <;> (intro ht; subst ht; simp [infixFn] at h)
+
+theorem isPostfix_legal {t : TokType} (h : isPostfix t = true) : legal t := by
+  refine ⟨?_, ?_, ?_⟩ <;> (intro ht; subst ht; simp [isPostfix] at h)
+
+theorem prefixFn_none : prefixFn .NONE = none := rfl
+
+theorem prefixFn_illegal {fn : PrefixFn} (h : prefixFn .ILLEGAL = some fn) : fn = .illegal := by
+  simp [prefixFn] at h; exact h.symm
+
+theorem prefixFn_eof {fn : PrefixFn} (h : prefixFn .EOF = some fn) : fn = .eof := by
+  simp [prefixFn] at h; exact h.symm
+
+theorem skipSemis_toks {all : List Token} (n : Nat) (s : PState) (hc : Ct all s.toks) (hk : Kt s.toks) :
+    Ct all (skipSemis s n).toks ∧ Kt (skipSemis s n).toks := by
+  induction n generalizing s with
+  | zero => exact ⟨hc, hk⟩
+  | succ n ih =>
+    simp only [skipSemis]
+    split
+    · rename_i hp
+      rw [peekIs_iff] at hp
+      exact ih s.next (Ct_tail hc hk) (by show Kt s.toks.tail; rw [Kt_iff, hp, legal_iff]; decide)
+    · exact ⟨hc, hk⟩
+
+theorem parsePrefix_illegal (n : Nat) (s : PState) : parsePrefix n .illegal s = none := by
+  cases n <;> simp [parsePrefix]
+
+theorem parsePrefix_eof (n : Nat) (s : PState) : parsePrefix n .eof s = none := by
+  cases n <;> simp [parsePrefix]
+
+set_option hygiene false in
+macro "pclean0" : tactic => `(tactic| (
+  repeat' split at h
+  all_goals try contradiction
+  all_goals try simp only [Option.map_eq_some_iff] at h
+  all_goals grind [Ct_tail, C_next, CK_expectPeek, expectPeek_eq, K_iff, C_iff, Kt_iff, cur_eq, peek_eq, next_toks, curIs_iff, peekIs_iff,
+    infixFn_legal, isPostfix_legal, prefixFn_illegal, parsePrefix_illegal, prefixFn_eof, parsePrefix_eof, prefixFn_none, legal_iff, skipSemis_toks]))
+
+theorem parseParams_loop_CK {all : List Token} (fuel : Nat) (s : PState) (acc : List Str) (ps : List Str) (s' : PState)
+    (h : parseParams.loop fuel s acc = some (ps, s')) (hc : C all s) : C all s' ∧ K s' := by
+  induction fuel generalizing s acc with
+  | zero => simp [parseParams.loop] at h
+  | succ n ih =>
+    simp only [parseParams.loop] at h
+    pclean0
+
+theorem parseParams_CK {all : List Token} (s : PState) (ps : List Str) (s' : PState)
+    (h : parseParams s = some (ps, s')) (hc : C all s) (hk : K s) : C all s' ∧ K s' := by
+  simp only [parseParams] at h
+  split at h
+  · grind [Ct_tail, K_iff, C_iff, Kt_iff, legal_iff, next_toks, peekIs_iff]
+  · exact parseParams_loop_CK _ _ _ _ _ h (Ct_tail hc hk)
+
+set_option hygiene false in
+macro "pclean" : tactic => `(tactic| (
+  repeat' split at h
+  all_goals try contradiction
+  all_goals try simp only [Option.map_eq_some_iff] at h
+  all_goals grind (splits := 40) (gen := 30) (ematch := 30) (instances := 10000) [Ct_tail, C_next, CK_expectPeek, expectPeek_eq, K_iff, C_iff, Kt_iff, cur_eq, peek_eq, next_toks, curIs_iff, peekIs_iff,
+    infixFn_legal, isPostfix_legal, prefixFn_illegal, parsePrefix_illegal, prefixFn_eof, parsePrefix_eof, prefixFn_none, legal_iff, skipSemis_toks, parseParams_CK]))
+
+structure IH (all : List Token) (n : Nat) : Prop where
+  expr : ∀ prec s e s', parseExpression n prec s = some (e, s') → C all s → K s ∧ C all s' ∧ K s'
+  loop : ∀ prec l s e s', infixLoop n prec l s = some (e, s') → C all s → K s → C all s' ∧ K s'
+  pre : ∀ fn s e s', parsePrefix n fn s = some (e, s') → C all s → K s → C all s' ∧ K s'
+  inf : ∀ fn l s e s', parseInfix n fn l s = some (e, s') → C all s → K s → C all s' ∧ K s'
+  bracket : ∀ s e s', parseBracket n s = some (e, s') → C all s → K s → C all s' ∧ K s'
+  ifE : ∀ s e s', parseIf n s = some (e, s') → C all s → K s → C all s' ∧ K s'
+  stmt : ∀ s st s', parseStatement n s = some (st, s') → C all s → K s ∧ C all s' ∧ K s'
+  block : ∀ s b s', parseBlock n s = some (b, s') → C all s → K s → C all s' ∧ K s'
+  blockLoop : ∀ s acc b s', parseBlockLoop n s acc = some (b, s') → C all s → C all s' ∧ K s'
+  list : ∀ t s es s', legal t → parseExprList n t s = some (es, s') → C all s → K s → C all s' ∧ K s'
+  listLoop : ∀ t s acc es s', legal t → parseExprListLoop n t s acc = some (es, s') → C all s → K s → C all s' ∧ K s'
+  hash : ∀ s acc ps s', parseHashPairs n s acc = some (ps, s') → C all s → K s → C all s' ∧ K s' ∧ s'.peekIs .RBRACE = true
+  cases : ∀ s acc cs s', parseCases n s acc = some (cs, s') → C all s → C all s' ∧ K s'
+  caseExprs : ∀ s acc es s', parseCaseExprs n s acc = some (es, s') → C all s → K s → C all s' ∧ K s'
+
+theorem IH_zero (all : List Token) : IH all 0 := by
+  constructor <;> intros <;> simp_all [parseExpression, infixLoop, parsePrefix, parseInfix, parseBracket, parseIf,
+    parseStatement, parseBlock, parseBlockLoop, parseExprList, parseExprListLoop, parseHashPairs, parseCases, parseCaseExprs]
+
+theorem step_expr (all : List Token) (n : Nat) (ih : IH all n) : ∀ prec s e s', parseExpression (n + 1) prec s = some (e, s') → C all s → K s ∧ C all s' ∧ K s' := by
+  obtain ⟨ihE, ihL, ihP, ihI, ihB, ihIf, ihS, ihBl, ihBL, ihLs, ihLL, ihH, ihC, ihCE⟩ := ih
+  intro prec s e s' h hc
+  simp only [parseExpression] at h
+  pclean
+
+theorem step_loop (all : List Token) (n : Nat) (ih : IH all n) : ∀ prec l s e s', infixLoop (n + 1) prec l s = some (e, s') → C all s → K s → C all s' ∧ K s' := by
+  obtain ⟨ihE, ihL, ihP, ihI, ihB, ihIf, ihS, ihBl, ihBL, ihLs, ihLL, ihH, ihC, ihCE⟩ := ih
+  intro prec l s e s' h hc hk
+  simp only [infixLoop] at h
+  pclean
+
+theorem step_pre (all : List Token) (n : Nat) (ih : IH all n) : ∀ fn s e s', parsePrefix (n + 1) fn s = some (e, s') → C all s → K s → C all s' ∧ K s' := by
+  obtain ⟨ihE, ihL, ihP, ihI, ihB, ihIf, ihS, ihBl, ihBL, ihLs, ihLL, ihH, ihC, ihCE⟩ := ih
+  intro fn s e s' h hc hk
+  simp only [parsePrefix] at h
+  pclean
+
+theorem step_inf (all : List Token) (n : Nat) (ih : IH all n) : ∀ fn l s e s', parseInfix (n + 1) fn l s = some (e, s') → C all s → K s → C all s' ∧ K s' := by
+  obtain ⟨ihE, ihL, ihP, ihI, ihB, ihIf, ihS, ihBl, ihBL, ihLs, ihLL, ihH, ihC, ihCE⟩ := ih
+  intro fn l s e s' h hc hk
+  simp only [parseInfix] at h
+  pclean
+
+theorem step_bracket (all : List Token) (n : Nat) (ih : IH all n) : ∀ s e s', parseBracket (n + 1) s = some (e, s') → C all s → K s → C all s' ∧ K s' := by
+  obtain ⟨ihE, ihL, ihP, ihI, ihB, ihIf, ihS, ihBl, ihBL, ihLs, ihLL, ihH, ihC, ihCE⟩ := ih
+  intro s e s' h hc hk
+  simp only [parseBracket] at h
+  pclean
+
+theorem step_ifE (all : List Token) (n : Nat) (ih : IH all n) : ∀ s e s', parseIf (n + 1) s = some (e, s') → C all s → K s → C all s' ∧ K s' := by
+  obtain ⟨ihE, ihL, ihP, ihI, ihB, ihIf, ihS, ihBl, ihBL, ihLs, ihLL, ihH, ihC, ihCE⟩ := ih
+  intro s e s' h hc hk
+  simp only [parseIf] at h
+  pclean
+
+theorem step_stmt (all : List Token) (n : Nat) (ih : IH all n) : ∀ s st s', parseStatement (n + 1) s = some (st, s') → C all s → K s ∧ C all s' ∧ K s' := by
+  obtain ⟨ihE, ihL, ihP, ihI, ihB, ihIf, ihS, ihBl, ihBL, ihLs, ihLL, ihH, ihC, ihCE⟩ := ih
+  intro s st s' h hc
+  simp only [parseStatement] at h
+  pclean
+
+theorem step_block (all : List Token) (n : Nat) (ih : IH all n) : ∀ s b s', parseBlock (n + 1) s = some (b, s') → C all s → K s → C all s' ∧ K s' := by
+  obtain ⟨ihE, ihL, ihP, ihI, ihB, ihIf, ihS, ihBl, ihBL, ihLs, ihLL, ihH, ihC, ihCE⟩ := ih
+  intro s b s' h hc hk
+  simp only [parseBlock] at h
+  pclean
+
+theorem step_blockLoop (all : List Token) (n : Nat) (ih : IH all n) : ∀ s acc b s', parseBlockLoop (n + 1) s acc = some (b, s') → C all s → C all s' ∧ K s' := by
+  obtain ⟨ihE, ihL, ihP, ihI, ihB, ihIf, ihS, ihBl, ihBL, ihLs, ihLL, ihH, ihC, ihCE⟩ := ih
+  intro s acc b s' h hc
+  simp only [parseBlockLoop] at h
+  pclean
+
+theorem step_list (all : List Token) (n : Nat) (ih : IH all n) : ∀ t s es s', legal t → parseExprList (n + 1) t s = some (es, s') → C all s → K s → C all s' ∧ K s' := by
+  obtain ⟨ihE, ihL, ihP, ihI, ihB, ihIf, ihS, ihBl, ihBL, ihLs, ihLL, ihH, ihC, ihCE⟩ := ih
+  intro t s es s' ht h hc hk
+  simp only [parseExprList] at h
+  pclean
+
+theorem step_listLoop (all : List Token) (n : Nat) (ih : IH all n) : ∀ t s acc es s', legal t → parseExprListLoop (n + 1) t s acc = some (es, s') → C all s → K s → C all s' ∧ K s' := by
+  obtain ⟨ihE, ihL, ihP, ihI, ihB, ihIf, ihS, ihBl, ihBL, ihLs, ihLL, ihH, ihC, ihCE⟩ := ih
+  intro t s acc es s' ht h hc hk
+  simp only [parseExprListLoop] at h
+  pclean
+
+theorem step_hash (all : List Token) (n : Nat) (ih : IH all n) : ∀ s acc ps s', parseHashPairs (n + 1) s acc = some (ps, s') → C all s → K s → C all s' ∧ K s' ∧ s'.peekIs .RBRACE = true := by
+  obtain ⟨ihE, ihL, ihP, ihI, ihB, ihIf, ihS, ihBl, ihBL, ihLs, ihLL, ihH, ihC, ihCE⟩ := ih
+  intro s acc ps s' h hc hk
+  simp only [parseHashPairs] at h
+  pclean
+
+theorem step_cases (all : List Token) (n : Nat) (ih : IH all n) : ∀ s acc cs s', parseCases (n + 1) s acc = some (cs, s') → C all s → C all s' ∧ K s' := by
+  obtain ⟨ihE, ihL, ihP, ihI, ihB, ihIf, ihS, ihBl, ihBL, ihLs, ihLL, ihH, ihC, ihCE⟩ := ih
+  intro s acc cs s' h hc
+  simp only [parseCases] at h
+  pclean
+
+theorem step_caseExprs (all : List Token) (n : Nat) (ih : IH all n) : ∀ s acc es s', parseCaseExprs (n + 1) s acc = some (es, s') → C all s → K s → C all s' ∧ K s' := by
+  obtain ⟨ihE, ihL, ihP, ihI, ihB, ihIf, ihS, ihBl, ihBL, ihLs, ihLL, ihH, ihC, ihCE⟩ := ih
+  intro s acc es s' h hc hk
+  simp only [parseCaseExprs] at h
+  pclean
+
+theorem IH_succ (all : List Token) (n : Nat) (ih : IH all n) : IH all (n + 1) :=
+  ⟨step_expr all n ih, step_loop all n ih, step_pre all n ih, step_inf all n ih, step_bracket all n ih, step_ifE all n ih,
+   step_stmt all n ih, step_block all n ih, step_blockLoop all n ih, step_list all n ih, step_listLoop all n ih,
+   step_hash all n ih, step_cases all n ih, step_caseExprs all n ih⟩
+
+theorem IH_all (all : List Token) : ∀ n, IH all n
+  | 0 => IH_zero all
+  | n + 1 => IH_succ all n (IH_all all n)
+
+
+theorem parseProgramLoop_clean (all : List Token) (fuel efuel : Nat) (s : PState) (acc p : List Stmt)
+    (h : parseProgramLoop fuel efuel s acc = some p) (hc : C all s) :
+    ∃ s', C all s' ∧ s'.curIs .EOF = true := by
+  induction fuel generalizing s acc with
+  | zero => simp [parseProgramLoop] at h
+  | succ n ih =>
+    simp only [parseProgramLoop] at h
+    split at h
+    · exact ⟨s, hc, by assumption⟩
+    · split at h
+      · contradiction
+      · split at h
+        · contradiction
+        · rename_i st s1 hst
+          obtain ⟨_, hc1, hk1⟩ := (IH_all all efuel).stmt _ _ _ hst hc
+          exact ih _ _ h (C_next hc1 hk1)
+
+theorem mem_takeWhile_append {α : Type} (p : α → Bool) (pre rest : List α) (x : α)
+    (hr : rest.takeWhile p = []) (hx : x ∈ (pre ++ rest).takeWhile p) : x ∈ pre := by
+  induction pre with
+  | nil => simp [hr] at hx
+  | cons a pre ih =>
+    simp only [List.cons_append, List.takeWhile_cons] at hx
+    split at hx
+    · rcases List.mem_cons.mp hx with h | h
+      · exact List.mem_cons.mpr (Or.inl h)
+      · exact List.mem_cons_of_mem _ (ih h)
+    · cases hx
+
+/-- **No accepted program contains an ILLEGAL token**: if the parser accepts a token list, every
+    token up to the end-of-input token is a legal one - wherever it stands, however deeply nested. -/
+theorem parse_no_illegal (toks : List Token) (p : Program) (h : parse toks = some p) :
+    ∀ t ∈ toks.takeWhile (fun t => t.ty != .EOF), t.ty ≠ .ILLEGAL ∧ t.ty ≠ .NONE := by
+  unfold parse at h
+  obtain ⟨s', ⟨pre, hpre, hleg⟩, heof⟩ := parseProgramLoop_clean toks _ _ _ _ _ h ⟨[], rfl, by simp⟩
+  intro t ht
+  rw [hpre] at ht
+  refine (fun h => ⟨h.1, h.2.2⟩) (hleg t ?_)
+  apply mem_takeWhile_append _ pre s'.toks t _ ht
+  rw [curIs_iff] at heof
+  cases hs : s'.toks with
+  | nil => rfl
+  | cons a rest =>
+    rw [hs] at heof
+    simp only [List.headD_cons] at heof
+    simp [heof]
 
 end EvalFilter.Parser
